@@ -147,6 +147,22 @@ def h_read(ctx, vi, kind):
     st3, v3 = call(cls.from_list, lst)
     ctx.prove(st2 == "ok" and st3 == "ok" and _same_value(v2, v3, ctx),
               "read() differs from interpreting the stored bytes: %r vs %r" % (v2, v3), key=tag + "/interpreted")
+    # the MASK / TMASK flags follow the DiiA tables (which values support them), not only the class's own
+    # declarations: C11 checks the full decoding, here only that a read reports the flag where it must
+    row = [x for x in MM.ROWS if x[1] == bname and x[2] == vname]
+    if row and st2 == "ok":
+        kindv = row[0][7]
+        sup_mask, sup_tmask, mn, mx = MM.flags(vname)
+        payload = [image[l] for l in locs][1 if kindv == "scaled" else 0:]
+        ones = E.and_(*[E.eq(b, 0xFF) for b in payload])
+        ones_1 = E.and_(*([E.eq(b, 0xFF) for b in payload[:-1]] + [E.eq(payload[-1], 0xFE)]))
+        badscale = E.and_(E.gt(image[locs[0]], 6), E.lt(image[locs[0]], 0xFA)) if kindv == "scaled" else False
+        ctx.prove(E.iff(v2 is L.FlagValue.MASK, E.and_(sup_mask, ones, E.not_(badscale))),
+                  "read() reports MASK for a pattern / value where the DiiA tables do not (or misses it)",
+                  key=tag + "/mask-flag")
+        ctx.prove(E.iff(v2 is L.FlagValue.TMASK, E.and_(sup_tmask, ones_1, E.not_(badscale))),
+                  "read() reports TMASK for a pattern / value where the DiiA tables do not (or misses it)",
+                  key=tag + "/tmask-flag")
     ctx.observe("raw", r)
     return "ok"
 
